@@ -90,8 +90,21 @@ def _long_work(units):
             n = period
             ev = impl.ExperimentEvaluator(long_text(0))
             a1 = asts.setdefault(1, rp.parse(long_text(1).replace('"L"', '"M"')))
+            special = ["", " ", "0", 0, None, False]  # falsy / empty keys first, then n distinct units, then again
+            a0 = asts.setdefault(0, rp.parse(long_text(0)))
+            for u in special:
+                impl.call(ev, {"uid": u})
             for u in range(n):
                 impl.call(ev, {"uid": u})
+            for u in special + list(range(0, n, max(1, n // 50))):
+                got = impl.call(ev, {"uid": u})
+                out["cov"]["transitions"] = out["cov"].get("transitions", 0) + 1
+                why = oracle.agree(got, oracle.expected(a0, {"uid": u}))
+                if why:
+                    out["cov"]["violating_cases"] = out["cov"].get("violating_cases", 0) + 1
+                    out["viol"].append({"kind": "life:long", "period": n, "steps": "bulk", "evaluators": 1, "text_index": 0,
+                                        "why": f"after {n} other distinct units were evaluated, unit {u!r} gets {got!r}: {why}"})  # fmt: skip
+                    break
             with quiet():
                 ev.recompile(long_text(1).replace('"L"', '"M"'))
             bad = 0
@@ -196,7 +209,7 @@ def long_histories(res, tier):
 
     periods = [1, 2, 3, 5, 8, 9, 15, 16, 17, 31, 32, 33, 63, 64, 65, 100, 127, 128, 129, 130] + ([255, 256, 257, 300, 511, 512, 513] if tier == "thorough" else [])
     units = [(p, 3, n) for p in periods for n in (1, 2)]
-    units += [(n, "bulk", 1) for n in ([10, 300, 5000, 10000] + ([70000, 140000] if tier == "thorough" else []))]
+    units += [(n, "bulk", 1) for n in ([10, 300, 5000, 10000, 70000] + ([140000, 300000] if tier == "thorough" else []))]
     for w in pmap(_long_work, units, chunk=1, inline_ok=False):
         res.merge_worker(w)
     res.set("long_history_periods", periods)
